@@ -8,13 +8,13 @@ import dsl
 from dsl import PFX, LIBRARY
 
 
-def dec(x, sig=2):
-    """short decimal string with `sig` significant digits (no exponent)"""
+def dec(x, sig=2, down=False):
+    """short decimal string with `sig` significant digits (no exponent); down = round towards zero"""
     if x == 0:
         return '0'
     d = Decimal(repr(float(x)))
     e = d.adjusted()
-    q = d.quantize(Decimal(1).scaleb(e - sig + 1))
+    q = d.quantize(Decimal(1).scaleb(e - sig + 1), rounding='ROUND_DOWN' if down else 'ROUND_HALF_EVEN')
     s = format(q, 'f')
     if '.' in s:
         s = s.rstrip('0').rstrip('.')
@@ -26,12 +26,12 @@ NICE_PFX = {'L': ['', 'm', 'u', 'd', 'c'], 'g': ['', 'm', 'u', 'k', 'c'], 'mol':
 ALL_PFX = ['n', 'u', 'µ', 'm', 'c', 'd', '', 'da', 'k', 'M']
 
 
-def pick_qty(rng, base_value, b, sig=2, any_prefix=False):
+def pick_qty(rng, base_value, b, sig=2, any_prefix=False, down=False):
     """a quantity document for about base_value (in base unit b); the prefix is chosen so that the number is readable"""
     cands = ALL_PFX if any_prefix else NICE_PFX[b]
     ok = [p for p in cands if base_value == 0 or 1e-3 <= base_value / float(PFX[p][1]) < 1e5]
     p = rng.choice(ok or [''])
-    return {'v': dec(base_value / float(PFX[p][1]), sig), 'p': p, 'b': b}
+    return {'v': dec(base_value / float(PFX[p][1]), sig, down), 'p': p, 'b': b}
 
 
 class Gen:
@@ -187,7 +187,7 @@ class Gen:
         b = unit if unit in units else rng.choice(units)
         tot = self.measure(src_obj, b)
         f = frac if frac is not None else rng.choice([0.05, 0.1, 0.2, 0.3, 0.5])
-        return pick_qty(rng, tot * f / nshare, b, sig=rng.choice([1, 2, 2]), any_prefix=any_prefix), b
+        return pick_qty(rng, tot * min(f, 0.97) / nshare if f <= 1 else tot * f / nshare, b, sig=rng.choice([1, 2, 2]), any_prefix=any_prefix, down=(f <= 1)), b
 
     def transfer_cc(self, s=None, d=None, frac=None, unit=None, tag=None, any_prefix=False):
         rng = self.rng
@@ -245,7 +245,7 @@ class Gen:
             return None, None
         b = unit if unit in units else self.rng.choice(units)
         m = min(self.measure(w, b) for w in wells)
-        return pick_qty(self.rng, m * frac, b, sig=self.rng.choice([1, 2])), b
+        return pick_qty(self.rng, m * min(frac, 0.97), b, sig=self.rng.choice([1, 2]), down=True), b
 
     def transfer_pc(self, frac=None, kind=None):
         rng = self.rng
